@@ -117,6 +117,7 @@ def run(ctx):
     rule_tables(ctx)
     rule_load_dispatch(ctx)
     X.rule_truncated_quotient(ctx, ("partitura.io.importmei", "partitura.io.importkern"))
+    X.rule_per_iteration_staff(ctx)
     prog = ctx.prog
     exporters = [f for f in prog.functions.values() if f.module.name in (EK, EM) and "#" not in f.qname]
     G.rule_F4d(ctx, exporters, "kern/MEI exporters", floor=10)
